@@ -15,7 +15,7 @@ structure TypeWF (t : TypeInfo) : Prop where
   unit : ∀ fs, t.kind = .structure fs → (t.unit = .bit ∨ t.unit = .byte)
   bounds : ∀ f ∈ t.fields, f.isVirtual = false → f.ty.isAtomic = true →
     ∃ mn mx, f.sizeMin = .fin mn ∧ f.sizeMax = .fin mx
-  signedLit : ∀ v, getAttr t.attrs "is_signed" = some v → ∃ b, v = .bool (some b) true
+  signedLit : ∀ v, getAttr t.attrs "is_signed" = some v → ∃ b, v.boolValue = some b
 
 theorem reserved_nil (n : String) (e : EK) :
     (if isReserved n = true then [e] else []) = [] ↔ isReserved n = false := by
@@ -98,7 +98,7 @@ theorem paramOK_iff (p : Program) (q : Param) :
         simp [hf, hf']
 
 theorem signed_unique (t : TypeInfo) (vs : List EnumValue)
-    (hl : ∀ v, getAttr t.attrs "is_signed" = some v → ∃ b, v = .bool (some b) true) :
+    (hl : ∀ v, getAttr t.attrs "is_signed" = some v → ∃ b, v.boolValue = some b) :
     ∃ s0, effSigned t vs = some s0 ∧ ∀ s, Signed t vs s ↔ s = s0 := by
   unfold effSigned Signed
   cases ha : getAttr t.attrs "is_signed" with
@@ -106,15 +106,16 @@ theorem signed_unique (t : TypeInfo) (vs : List EnumValue)
     refine ⟨vs.any (fun v => decide (v.value < 0)), rfl, fun s => ?_⟩
     cases s <;> simp [List.any_eq_true]
   | some v =>
-    obtain ⟨b, rfl⟩ := hl v ha
-    refine ⟨b, rfl, fun s => ?_⟩
+    obtain ⟨b, hb⟩ := hl v ha
+    obtain ⟨l, rfl⟩ := AVal.boolValue_spec hb
+    refine ⟨b, hb, fun s => ?_⟩
     simp
     constructor
     · intro h; exact h.symm
     · intro h; exact h.symm
 
 theorem enumOK_iff (t : TypeInfo) (vs : List EnumValue) (hk : t.kind = .enum vs)
-    (hl : ∀ v, getAttr t.attrs "is_signed" = some v → ∃ b, v = .bool (some b) true) :
+    (hl : ∀ v, getAttr t.attrs "is_signed" = some v → ∃ b, v.boolValue = some b) :
     (verifyEnumWidth t = [] ∧ enumValues t = [] ∧
       vs.flatMap (fun v => checkAttrList AttrTable.enumValueAttrs [] v.attrs) = [] ∧
       vs.flatMap (fun v => if isReserved v.name then [EK.reservedEnum] else []) = []) ↔
